@@ -103,57 +103,18 @@ theorem checkHtlcs_ok {p : Policy} {c : ChainState} {limit : Nat} :
       · exact validateExpiry_ok h1 hte
       · exact he hte y hy
 
-/-- the saturating numerator of `estimate_feerate_per_kw` -/
-def satNum (fee : Nat) : Nat := U64.satAdd (U64.satMul fee 1000) 999
+/-- `validate_fee`'s exact rate against an upper bound: the exact (unbounded) inequality -/
+theorem exactFeerate_le {fee w maxF : Nat} (hw0 : 0 < w) (h : exactFeerate fee w ≤ maxF) :
+    fee * 1000 + 999 < (maxF + 1) * w := by
+  unfold exactFeerate at h
+  have : (fee * 1000 + 999) / w < maxF + 1 := by omega
+  exact (Nat.div_lt_iff_lt_mul hw0).mp this
 
-theorem satNum_exact {fee : Nat} (h : fee * 1000 + 999 ≤ U64.MAX) : satNum fee = fee * 1000 + 999 := by
-  unfold satNum U64.satAdd U64.satMul
-  simp only [Nat.min_def]
-  repeat' split
-  all_goals omega
-
-theorem satNum_sat {fee : Nat} (h : ¬ fee * 1000 + 999 ≤ U64.MAX) : satNum fee = U64.MAX := by
-  unfold satNum U64.satAdd U64.satMul
-  simp only [Nat.min_def]
-  repeat' split
-  all_goals omega
-
-theorem satNum_le (fee : Nat) : satNum fee ≤ fee * 1000 + 999 := by
-  by_cases h : fee * 1000 + 999 ≤ U64.MAX
-  · rw [satNum_exact h]; exact Nat.le_refl _
-  · rw [satNum_sat h]; omega
-
-theorem estimateFeerate_eq (fee w : Nat) : estimateFeerate fee w = min (satNum fee / w) U32.MAX := rfl
-
-/-- `estimate_feerate_per_kw` against an upper bound below the clamp: no saturation happened and the
-    exact (unbounded) inequality holds. -/
-theorem estimateFeerate_le {fee w maxF : Nat} (hw0 : 0 < w) (hw : w ≤ 268435456) (hmax : maxF < U32.MAX)
-    (h : estimateFeerate fee w ≤ maxF) : fee * 1000 + 999 < (maxF + 1) * w := by
-  rw [estimateFeerate_eq] at h
-  have h2 : satNum fee / w ≤ maxF := by
-    simp only [Nat.min_def] at h; split at h <;> omega
-  by_cases hs : fee * 1000 + 999 ≤ U64.MAX
-  · rw [satNum_exact hs] at h2
-    have : (fee * 1000 + 999) / w < maxF + 1 := by omega
-    exact (Nat.div_lt_iff_lt_mul hw0).mp this
-  · exfalso
-    rw [satNum_sat hs] at h2
-    have hq : 68719476735 ≤ U64.MAX / w := by
-      apply (Nat.le_div_iff_mul_le hw0).mpr
-      calc 68719476735 * w ≤ 68719476735 * 268435456 := Nat.mul_le_mul_left _ hw
-        _ ≤ U64.MAX := by decide
-    simp only [U32.MAX] at hmax
-    omega
-
-/-- lower bound: the estimate is at least `minF` only if the exact inequality holds -/
-theorem estimateFeerate_ge {fee w minF : Nat} (hw0 : 0 < w) (h : minF ≤ estimateFeerate fee w) :
+/-- lower bound -/
+theorem exactFeerate_ge {fee w minF : Nat} (hw0 : 0 < w) (h : minF ≤ exactFeerate fee w) :
     minF * w ≤ fee * 1000 + 999 := by
-  rw [estimateFeerate_eq] at h
-  have h2 : minF ≤ satNum fee / w := by
-    simp only [Nat.min_def] at h; split at h <;> omega
-  have h3 := (Nat.le_div_iff_mul_le hw0).mp h2
-  have := satNum_le fee
-  omega
+  unfold exactFeerate at h
+  exact (Nat.le_div_iff_mul_le hw0).mp h
 
 /-- the fee-range conjunct of the reference predicates -/
 def FeeInRange (p : Policy) (sumIn sumOut w : Nat) : Prop :=
@@ -162,7 +123,7 @@ def FeeInRange (p : Policy) (sumIn sumOut w : Nat) : Prop :=
 
 theorem validateFee_ok {p : Policy} {t : Tag} {sumIn sumOut w : Nat}
     (h : validateFee p t sumIn sumOut w = .ok ()) (he : errs p t = true)
-    (hw0 : 0 < w) (hw : w ≤ 268435456) (hmax : p.maxFeerate < U32.MAX) : FeeInRange p sumIn sumOut w := by
+    (hw0 : 0 < w) : FeeInRange p sumIn sumOut w := by
   unfold validateFee at h
   obtain ⟨_, h1, h⟩ := bind_ok h
   obtain ⟨_, h2, h3⟩ := bind_ok h
@@ -170,16 +131,11 @@ theorem validateFee_ok {p : Policy} {t : Tag} {sumIn sumOut w : Nat}
   have h2 := check_ok h2 he
   have h3 := check_ok h3 he
   simp at h1 h2 h3
-  exact ⟨h1, estimateFeerate_ge hw0 h2, estimateFeerate_le hw0 hw hmax h3⟩
+  exact ⟨h1, exactFeerate_ge hw0 h2, exactFeerate_le hw0 h3⟩
 
 theorem commitmentWeight_pos (a : Bool) (k : Nat) : 0 < commitmentWeight a k := by
   unfold commitmentWeight
   cases a <;> simp [Gen.Policy.commitmentBaseAnchorWeight, Gen.Policy.commitmentBaseWeight] <;> omega
-
-theorem commitmentWeight_le (a : Bool) (k : Nat) (hk : k ≤ 1048576) : commitmentWeight a k ≤ 268435456 := by
-  unfold commitmentWeight
-  cases a <;> simp [Gen.Policy.commitmentBaseAnchorWeight, Gen.Policy.commitmentBaseWeight,
-    Gen.Policy.commitmentWeightPerHtlc] <;> omega
 
 /-- the verdict of either validator on a commitment passes through the common checks -/
 theorem validateCommitment_tx (p : Policy) (s : Setup) (c : ChainState) (e : EState) (n : Nat) (i : Info)
